@@ -112,3 +112,34 @@ Proof.
   unfold bits_of_bytes. induction l as [|b l IH]; [reflexivity|].
   cbn [flat_map length]. rewrite app_length, IH, byte_bits_length. lia.
 Qed.
+
+(* a slice splits into its high and low parts *)
+Lemma firstn_add {A} a b (l : list A) : firstn (a + b) l = firstn a l ++ firstn b (skipn a l).
+Proof.
+  revert l; induction a as [|a IH]; intros l; [reflexivity|].
+  destruct l as [|x l]; [cbn; rewrite firstn_nil; reflexivity|]. cbn [Nat.add firstn skipn app]. rewrite IH. reflexivity.
+Qed.
+
+Lemma sl_split bs p a w : (p + a + w <= length bs)%nat ->
+  sl bs p (a + w) = sl bs p a * 2 ^ N.of_nat w + sl bs (p + a) w.
+Proof.
+  intros H. unfold sl. rewrite firstn_add, N_of_bits_app, skipn_skipn.
+  rewrite firstn_length, !skipn_length. replace (Nat.min w (length bs - (p + a))) with w by lia. reflexivity.
+Qed.
+
+Lemma sl_low bs p a w : (p + a + w <= length bs)%nat -> sl bs (p + a) w = sl bs p (a + w) mod 2 ^ N.of_nat w.
+Proof.
+  intros H. rewrite sl_split by exact H.
+  rewrite N.add_comm, N.mod_add by (apply N.pow_nonzero; lia).
+  symmetry. apply N.mod_small. apply sl_lt.
+Qed.
+
+(* bytes from a byte offset on: the bit stream skipped by whole bytes *)
+Lemma skipn_bits_of_bytes k l : skipn (8 * k) (bits_of_bytes l) = bits_of_bytes (skipn k l).
+Proof.
+  revert l; induction k as [|k IH]; intros l; [reflexivity|].
+  destruct l as [|b l]; [reflexivity|].
+  replace (8 * S k)%nat with (8 + 8 * k)%nat by lia.
+  cbn [bits_of_bytes flat_map skipn]. rewrite <- skipn_skipn.
+  change (skipn 8 (byte_bits b ++ flat_map byte_bits l)) with (flat_map byte_bits l). apply IH.
+Qed.
